@@ -273,6 +273,21 @@ def run(p, led, tier):
             led.ok("C08-R3", key, where(runm, runm.node), f"{d['cells']} cell-path(s) over {len(G)} gates × {len(alpha) + 1}² verdict pairs", nontrivial=not cls.startswith("other"))
     led.extra["executor_failure_cells"] = n_fail_cells
 
+    # ---------------- R5 the loop's own lock is never re-acquired while held (every request returns)
+    from ..locks import LockAnalysis, regions
+    from ..resolve import Resolver
+    la = LockAnalysis(p, Resolver(p), L)
+    led.rule("C08-R5", "no region of the loop's non-re-entrant lock reaches a re-acquisition of the same lock", 4)
+    viol = {(fi.key, id(w)): (call, chain) for fi, w, a, call, chain in la.reentry_violations()}
+    for m in la.methods():
+        for w, a in regions(m, la.locks):
+            key = f"{m.qual} ▸ with self.{a}"
+            v = viol.get((m.key, id(w)))
+            if v:
+                led.fail("C08-R5", key, where(m, v[0]), f"`{short(v[0])}` runs while self.{a} (non-re-entrant) is held and re-acquires it: the request never returns", path=v[1])
+            else:
+                led.ok("C08-R5", key, where(m, w), "no same-instance call inside the region can acquire the lock again")
+
     # ---------------- R4 writers
     allowed_state = {"_check_circuit", "_record_failure", "_record_success", "reset_circuit_breaker", "__init__"}
     n = 0
